@@ -832,3 +832,5 @@ def run(chk):
         chk.guard("R08.9", "compile-end-to-end", check_compile_end_to_end, chk, F)
     if not ONLY or "10" in ONLY.split(","):
         chk.guard("R08.10", "compile-tr", check_compile_tr, chk, F)
+    from . import ctors
+    chk.guard("R08.11", "typed-constructors", ctors.check_typed_constructors, chk, F, "R08.11")
